@@ -1,0 +1,17 @@
+//go:build verif
+
+package tokenizers
+
+import "github.com/pip-services3-gox/pip-services3-expressions-gox/io"
+
+// VerifLoopHook, when set, is called at the top of every iteration of the
+// main loop of AbstractTokenizer.ReadNextToken with the iteration number
+// (1-based, per call).
+var VerifLoopHook func(scanner io.IScanner, iteration int)
+
+func verifLoopHook(scanner io.IScanner, iteration *int) {
+	*iteration++
+	if h := VerifLoopHook; h != nil {
+		h(scanner, *iteration)
+	}
+}
